@@ -795,7 +795,93 @@ fn run_guard_seq(seq: &[u8], h: &LocalHandle, peer: &LocalHandle, collector: &Co
     }
 }
 
+/// Sequences on a guard that has outlived its participant's last handle (`h.pin(); drop(h)`):
+/// symbols 0 reactivate, 1 reactivate_after(nop), 2 reactivate_after(panic); every sequence of
+/// length <= depth, then the guard is dropped.
+pub fn orphan_cases(depth: usize) -> i64 {
+    let mut per = 0i64;
+    let mut pow = 1i64;
+    for _ in 0..=depth {
+        per += pow;
+        pow *= 3;
+    }
+    per
+}
+
+fn orphan_guard(p: &Params) -> Program {
+    let e0 = p.get("e0", 0) as usize;
+    let mut idx = p.get("case", 0);
+    let mut len = 0;
+    let mut block = 1i64;
+    while idx >= block {
+        idx -= block;
+        block *= 3;
+        len += 1;
+    }
+    let mut seq = vec![];
+    for _ in 0..len {
+        seq.push((idx % 3) as u8);
+        idx /= 3;
+    }
+    let ew = EWorld::new(e0);
+    let ew2 = ew.clone();
+    Program {
+        e0,
+        setup: Some(ebody(&ew, move |_c, ew| {
+            ew.attach(e0);
+            std::panic::set_hook(Box::new(|_| {}));
+            let bad = |what: String| mon().violate("C16", "guard-model", what);
+            let peer = ew.collector.register();
+            let h = ew.collector.register();
+            let mut g = h.pin();
+            let addr = cv::ebr::guard_local_state(&g).unwrap().addr;
+            drop(h);
+            for (step, &s) in seq.iter().enumerate() {
+                mon().mix(0x1680 ^ ((s as u64) << 8) ^ ((step as u64) << 16));
+                let r = std::panic::catch_unwind(std::panic::AssertUnwindSafe(|| match s {
+                    0 => g.reactivate(),
+                    1 => g.reactivate_after(|| {}),
+                    _ => g.reactivate_after(|| panic!("closure panics")),
+                }));
+                if (s == 2) != r.is_err() {
+                    bad(format!("step {} of {:?} on a guard without handle: panic not propagated exactly", step, seq));
+                }
+                // the thread must be pinned again: still a registered participant, published as
+                // pinned, and actually holding the epoch back
+                let st = cv::ebr::guard_local_state(&g).unwrap();
+                if !st.pinned || st.guard_count != 1 || st.handle_count != 0 {
+                    bad(format!("step {} of {:?} on a guard without handle: pinned={} guard_count={} handle_count={}", step, seq, st.pinned, st.guard_count, st.handle_count));
+                }
+                if !mon().locals.contains_key(&addr) {
+                    bad(format!("step {} of {:?}: the participant was unregistered although its guard is live", step, seq));
+                }
+                for _ in 0..3 {
+                    let pg = peer.pin();
+                    cv::ebr::try_advance(&ew.collector, &pg);
+                }
+                let ge = cv::ebr::global_epoch(&ew.collector);
+                if ge.wrapping_sub(st.epoch) > 1 {
+                    bad(format!("step {} of {:?}: after reactivation the guard (epoch {}) does not hold the global epoch back (now {})", step, seq, st.epoch, ge));
+                }
+                mon().cover("orphan-guard-step");
+            }
+            drop(g);
+            if mon().locals.contains_key(&addr) {
+                bad(format!("after dropping the last guard of {:?} the participant is still registered", seq));
+            }
+            drop(peer);
+            let _ = std::panic::take_hook();
+        })),
+        threads: vec![],
+        post: Some(survivor(&ew2, 40, true)),
+        ..ebase(p, 0)
+    }
+}
+
 fn guards(p: &Params) -> Program {
+    if p.get("orphan", 0) != 0 {
+        return orphan_guard(p);
+    }
     let e0 = p.get("e0", 0) as usize;
     let depth = p.get("depth", 4) as usize;
     let seq = guard_seqs(depth)[p.get("case", 0) as usize].clone();
@@ -916,6 +1002,10 @@ fn queue(p: &Params) -> Program {
         3 => (vec![1, 2], vec![vec![PopEven], vec![Pop], vec![PopSmall]]),
         4 => (vec![2], vec![vec![PopEven, PopEven], vec![Push(4), Push(5)]]),
         5 => (vec![], vec![vec![Push(1), Pop], vec![Push(2), Pop]]),
+        // two consumers on a queue whose first elements all satisfy the predicate: losing the race
+        // for the head is no reason to report "empty"
+        7 => (vec![2, 4, 6], vec![vec![PopEven], vec![Pop]]),
+        8 => (vec![2, 4], vec![vec![PopEven], vec![PopEven], vec![Push(8)]]),
         _ => (vec![3], vec![vec![PopEven, Pop], vec![Pop, Push(6)], vec![PopSmall]]),
     };
     let ew = EWorld::new(e0);
